@@ -206,7 +206,7 @@ func (ck *Check) timeout() int {
 	if ck.Tier == "thorough" {
 		return 60
 	}
-	return 10
+	return 20
 }
 
 // verifyFunctions generates and discharges the obligations of all functions
